@@ -10,6 +10,18 @@ BASELINE_OFF = ("cd /repo && export GOFLAGS=-mod=mod GOPROXY=off GOSUMDB=off GOT
 
 # id -> (category, technique, engine, level text, level note, design ref)
 CLAIMS = {
+    "C01": ("exploration",
+            "explicit-state BFS over wallet histories; in every state export + import into 5 target wallets + exhaustive single-field tamper menu",
+            "seqx",
+            "Every history up to depth 4 (quick) / 5 (thorough); in every state every keystore is exported, re-import while present must be refused without effect, import into empty / occupied x locked / unlocked wallets and under a new passphrase must give the same id, remark, (branch,index)->key maps and counters with every key signing, wrong passphrases are refused with the raw store unchanged, delete+import restores the reference state, and an 85-entry single-field tamper menu is applied to each distinct file content. Open findings: unauthenticated metadata and never-read fields are accepted (listed per field in known_findings.json).",
+            "secretbox authenticity and scrypt trusted; tamper menu excludes values that would make import loop for 2^32 derivations or allocate GiB in scrypt (noted in DESIGN)",
+            "DESIGN.md §C01"),
+    "C03": ("exploration",
+            "explicit-state BFS over wallet histories with guarded operations under 5 passphrase classes; in-package secret-field scan in every locked state",
+            "seqx",
+            "Every history up to depth 5/6 over create/import/delete/export/passphrase changes/lock/unlock/restart called with current, wrong, superseded, public and ill-formed passphrases; success iff the reference says the passphrase is the current private one; in every state all guarded operations are additionally probed with 5 wrong-passphrase classes; while locked no keystore is unlocked, nothing signs and no working secret (master key, crypto key, private scalars, passphrase hash) is in memory; unlocking is all-or-nothing; superseded passphrases stay dead after restart.",
+            "a non-zero secret field is a violation only if it is a working secret (DESIGN §C03); scrypt N=16",
+            "DESIGN.md §C03"),
     "C02": ("exploration",
             "explicit-state BFS over wallet operation histories on the real manager+store against a reference model, restart check in every state",
             "seqx",
